@@ -30,7 +30,7 @@ func TestVerifC16(t *testing.T) {
 	lts := []time.Duration{1, time.Second, 1500 * time.Millisecond, time.Minute, 4 * time.Hour, 24 * time.Hour, 30 * 24 * time.Hour, ndp.Infinity - 2*time.Second, ndp.Infinity - time.Second}
 
 	rr := r.Rand("c16")
-	n := r.Pick(2000, 500000)
+	n := r.Pick(2000, 2000000)
 	for i := 0; i < n; i++ {
 		id := fmt.Sprintf("tuple/%d", i)
 		epoch := epochs[rr.Intn(len(epochs))]
